@@ -93,7 +93,7 @@ class ChainHist(Engine):
             else:
                 a = {'op': 'p2pkh_variant', 'how': rng.choice(['pushdata1', 'pushdata2', 'pushdata4', 'bare_c', 'bare_u']), 'data': gen.rhex(rng, 65)}
             steps.append({'t': 0.0, 'prio': 0, 'party': party, 'op': a['op'], 'args': a})
-        return {'engine': self.name, 'property': [prop], 'config': {'mode': mode, 'parties': parties}, 'steps': steps}
+        return {'engine': self.name, 'property': [prop], 'config': {'mode': mode, 'parties': parties, 'never_selected': mode == 'single' and rng.random() < 0.25}, 'steps': steps}
 
     def gen_raw(self, rng):
         r = rng.random()
@@ -120,6 +120,10 @@ class ChainHist(Engine):
         self.pool = []      # (text, chain minted under, kind, payload)
         self.selections = 0
         seams.select('mainnet')
+        if cfg.get('never_selected'):
+            # this history starts in a process that has not called SelectParams yet (default: mainnet)
+            seams.unselected()
+            ctx.fault('process-never-selected-a-chain')
         self.chain = 'mainnet'
         parties = cfg['parties']
         try:
